@@ -194,6 +194,25 @@ def handle (line : Json) : Json :=
       | .error .unsolicited => Json.mkObj [("r", "raised"), ("cls", "UnsolicitedResponse")]
       | .error _ => Json.mkObj [("r", "raised"), ("cls", "SignatureError")]
     Json.mkObj [("interp", interp), ("model", model)]
+  | "scan" =>
+    -- as: one entry per assertion: null (no Subject) or the list of its confirmations: null (no data) or {"irt": str|null}
+    let confOf (j : Json) : ConfD := match j with
+      | Json.null => none
+      | _ => some (str? j "irt")
+    let assOf (j : Json) : AssD := match j.getArr? with
+      | .ok a => some (a.toList.map confOf)
+      | .error _ => none
+    let as : List AssD := match (line.getObjVal? "as").bind (·.getArr?) with
+      | .ok a => a.toList.map assOf
+      | .error _ => []
+    let irp : Option String := str? line "irp"
+    let r := run Sp.pyStrip noExt Gen.PyFuns.AuthnResponse_check_subject_confirmation_in_response_to [selfScan as, optStr irp, .none]
+    let mis := Sp.scanAssertions irp (as.map toAssertion)
+    -- the model's scan says "mismatch or not"; whether the not-mismatch is a clean True or the AttributeError of an
+    -- assertion without Subject is told by scan3
+    let model : Result := if mis then .value (.bool false) else
+      (match scan3 irp as with | .attrErr => .raised "AttributeError" | _ => .value (.bool true))
+    Json.mkObj [("interp", resJson r), ("model", resJson model)]
   | _ => Json.mkObj [("interp", Json.mkObj [("r", "stuck"), ("why", "unknown function")])]
 
 def main : IO Unit := serve handle
